@@ -109,6 +109,29 @@ Proof. revert n. induction l; intros [|n]; cbn; try constructor; auto. Qed.
 
 Lemma jst_order ann i lost : jst ann i lost -> subseq (dels ann) all.
 Proof. intros H. eapply subseq_trans; [apply (jst_subseq _ _ _ H)|apply firstn_subseq]. Qed.
+
+Lemma jst_ge ann i lost : jst ann i lost -> (i0 <= i)%nat.
+Proof. induction 1; lia. Qed.
+
+Lemma nth_error_skipn {A} (l : list A) : forall a n, nth_error (skipn a l) n = nth_error l (a + n).
+Proof. induction l as [|x l IH]; intros [|a] n; cbn; auto. destruct n; reflexivity. Qed.
+
+(* completeness under interleaving: as long as no error has been returned nothing is skipped - the events handed to
+   the handler are exactly the messages number i0 .. i-1 *)
+Lemma jst_complete ann i lost :
+  jst ann i lost -> (forall e j, ~ In (RErr e, j) ann) ->
+  lost = false /\ dels ann = firstn (i - i0) (skipn i0 all).
+Proof.
+  induction 1; intros NE.
+  - split; auto. rewrite Nat.sub_diag. reflexivity.
+  - cbn [dels]. apply IHjst. intros e j' H'. apply (NE e j'). now right.
+  - exfalso. apply (NE e j). now left.
+  - destruct IHjst as [Lf D]; [intros e j' H'; apply (NE e j'); now right|].
+    split; auto. specialize (H2 Lf). subst j. pose proof (jst_ge _ _ _ H). cbn [dels]. rewrite D.
+    replace (S i - i0)%nat with (S (i - i0)) by lia.
+    rewrite (firstn_snoc_nth (skipn i0 all) (i - i0) (ty, bs)); auto.
+    rewrite nth_error_skipn. replace (i0 + (i - i0))%nat with i by lia. exact H0.
+Qed.
 End Judge.
 
 (* the events handed to the handler, oldest first, from the receiver's results (newest first) *)
@@ -320,6 +343,19 @@ Proof.
     + left. symmetry. auto.
     + right. exists (c_log V), e, r. split; [exact E|]. eapply G2. reflexivity.
   - right. exists l1, e, (l2 ++ es). eapply at_pos_grow; eauto.
+Qed.
+
+(* the number of real records before the tail of the completed part = the number of completed messages *)
+Lemma idx_tail c0 ch V es :
+  wfch c0 ch -> wfch c0 V -> c_log V = c_log ch ++ es -> idx V (c_tail ch) = length (allmsgs ch).
+Proof.
+  intros W WV E. destruct (grow_facts c0 ch V es W WV E) as (_ & G & _).
+  rewrite (idx_grow ch V es (c_tail ch) E G). unfold idx, allmsgs. rewrite map_length. f_equal.
+  apply filter_same. intros x Hx.
+  destruct (chain_bounds cap k Hcap Hk _ _ _ (wf_ents _ _ W) (wf_chain _ _ W)) as [_ B].
+  rewrite Forall_forall in B. specialize (B x Hx). cbn in B.
+  pose proof (wf_ents _ _ W) as F. rewrite Forall_forall in F. pose proof (e_end_gt cap k Hcap Hk x (F x Hx)).
+  replace (e_pos x <? c_tail ch) with true by lia. apply andb_true_r.
 Qed.
 
 (* ---------------------------------------------------------------- what the receiver can see of the transmitter
@@ -995,13 +1031,22 @@ Theorem interleaved c0 pre msgs nrecv sched :
   conc_ok cap c0 pre msgs -> all = transmitted_pre cap pre ++ msgs -> i0 = Nat.pred (length (transmitted_pre cap pre)) ->
   let g := hrun (hinit c0 pre msgs nrecv) sched in
   h_s g = run_schedule m w hv cap (init_cstate cap c0 pre msgs nrecv) sched /\
-  (in_class_free g -> exists ann i lost, map fst ann = r_out (c_rx (h_s g)) /\ jst all i0 ann i lost).
+  (in_class_free g ->
+   exists ann i lost, map fst ann = r_out (c_rx (h_s g)) /\ jst all i0 ann i lost /\
+     (* drained: when the receiver is between two receives and a receive starting now would find nothing, then - unless
+        a loss report is pending - every message whose transmit has completed has been delivered or skipped with a report *)
+     (r_pc (c_rx (h_s g)) = RIdle -> c_tail (h_ch g) <= next_record (r_rx (c_rx (h_s g))) -> lost = false ->
+      (length (allmsgs (h_ch g)) <= i)%nat)).
 Proof.
   intros OK Eall Ei g. split; [apply hrun_erase|]. intros CF.
-  pose proof (hrun_inv c0 sched _ (hinit_inv c0 pre msgs nrecv OK Eall Ei)) as (_ & _ & RI). fold g in RI.
-  destruct (RI CF) as [ann R]. destruct (in_copy _).
-  - destruct R as (l1 & e & l2 & _ & _ & _ & _ & _ & (i & lost & E & J & _)). exists ann, i, lost. auto.
-  - destruct R as (_ & (i & lost & E & J & _) & _). exists ann, i, lost. auto.
+  pose proof (hrun_inv c0 sched _ (hinit_inv c0 pre msgs nrecv OK Eall Ei)) as (TI & _ & RI). fold g in RI, TI.
+  destruct (RI CF) as [ann R]. destruct (in_copy (r_pc (c_rx (h_s g)))) eqn:IC.
+  - destruct R as (l1 & e & l2 & _ & _ & _ & _ & _ & (i & lost & E & J & _)). exists ann, i, lost.
+    split; [exact E|]. split; [exact J|]. intros Pc. rewrite Pc in IC. discriminate IC.
+  - destruct R as (B & (i & lost & E & J & Le & Eq) & _). exists ann, i, lost.
+    split; [exact E|]. split; [exact J|]. intros _ Tn Lf. rewrite (Eq Lf).
+    destruct (vis_facts c0 _ _ _ TI) as (WV & Wch & [es Es] & _).
+    rewrite <- (idx_tail c0 _ _ es Wch WV Es). apply idx_mono. exact Tn.
 Qed.
 
 End Order.
